@@ -2,15 +2,9 @@ SPECIFICATION MCSpec
 CONSTANT Variant = "three"
 CONSTANT StrictEvents = TRUE
 CONSTANT FixF5 = TRUE
-CONSTANT AddFirst = TRUE
+CONSTANT AddFirst = FALSE
 CONSTANT Procs = {"p1", "p2"}
 CONSTANT Jobs = {"a", "b", "c"}
-CONSTRAINT OneDeath
-INVARIANT TypeOK
-INVARIANT Capacity
-INVARIANT MutualExclusion
-INVARIANT ObserversSurvive
+CONSTRAINT NoDeath26
 INVARIANT Informed
-INVARIANT NoOrphanEmptyFile
-PROPERTY ReclaimOnlyAfterEnd
 CHECK_DEADLOCK FALSE
